@@ -207,6 +207,7 @@ func (e *engine) runC11History(keys []*edKey) {
 	}
 	e.rep.Require(req...)
 	e.historyPhase(parsers, in)
+	e.retainPhase(c11Keepers(), in)
 }
 
 func strs(l ...string) [][]byte {
@@ -313,4 +314,40 @@ func (e *engine) runC38History() {
 	}
 	e.rep.Require(req...)
 	e.historyPhase(parsers, in)
+	e.c38Parsers, e.c38Inputs = parsers, in
+}
+
+// runC38Trunc: every proper prefix of every input of the history sets (valid canonical texts of
+// every parser among them) — a truncated valid value is the input that reaches length-guarded fast
+// paths. Monitor: no panic; the outcome is the model's.
+func (e *engine) runC38Trunc() {
+	for _, p := range e.c38Parsers {
+		seen := map[string]bool{}
+		for _, x := range e.c38Inputs[p.name] {
+			for n := 0; n < len(x); n++ {
+				pre := x[:n:n]
+				if seen[string(pre)] {
+					continue
+				}
+				seen[string(pre)] = true
+				impl := canonPanic(lib.Recover(func() string { return p.f(pre) }))
+				model := impl
+				op := "trunc " + p.name + " x=" + lib.Hex(pre)
+				if p.op != nil {
+					op = p.op(pre)
+					if p.ask {
+						model = e.ask(op)
+					} else {
+						model = e.m.Query(op)
+					}
+					op += " trunc=" + p.name
+				}
+				mon := ""
+				if impl == "panic" {
+					mon = p.name + " panics on a truncated value"
+				}
+				e.rep.Compare(op, model, impl, "trunc.text", "config.trunc:"+p.name, mon)
+			}
+		}
+	}
 }
